@@ -79,31 +79,29 @@ func (c *ThrottlingChecker) DoCheck(_ base.StatNode, batchCount uint32, threshol
 	// The interval between two requests (in nanoseconds).
 	intervalNs := int64(math.Ceil(float64(batchCount) / threshold * float64(c.statIntervalNs)))
 
-	loadedLastPassedTime := atomic.LoadInt64(&c.lastPassedTime)
-	// Expected pass time of this request.
-	expectedTime := loadedLastPassedTime + intervalNs
-	if expectedTime <= curNano {
-		if swapped := atomic.CompareAndSwapInt64(&c.lastPassedTime, loadedLastPassedTime, curNano); swapped {
-			// nil means pass
-			return nil
+	// The last pass time is only ever advanced by a compare-and-swap from the value this request has
+	// based its decision on. (Adding the interval unconditionally and subtracting it again when the
+	// request turns out to wait too long let concurrent callers observe reservations that were later
+	// withdrawn: two requests could get the same pass time, pass closer together than the interval,
+	// or be rejected although the queue was short enough.)
+	for {
+		loadedLastPassedTime := atomic.LoadInt64(&c.lastPassedTime)
+		// Expected pass time of this request.
+		expectedTime := loadedLastPassedTime + intervalNs
+		if expectedTime <= curNano {
+			if swapped := atomic.CompareAndSwapInt64(&c.lastPassedTime, loadedLastPassedTime, curNano); swapped {
+				// nil means pass
+				return nil
+			}
+			continue
 		}
-	}
 
-	estimatedQueueingDuration := atomic.LoadInt64(&c.lastPassedTime) + intervalNs - curNano
-	if estimatedQueueingDuration > c.maxQueueingTimeNs {
-		return base.NewTokenResultBlockedWithCause(base.BlockTypeFlow, BlockMsgQueueing, rule, nil)
-	}
-
-	oldTime := atomic.AddInt64(&c.lastPassedTime, intervalNs)
-	estimatedQueueingDuration = oldTime - curNano
-	if estimatedQueueingDuration > c.maxQueueingTimeNs {
-		// Subtract the interval.
-		atomic.AddInt64(&c.lastPassedTime, -intervalNs)
-		return base.NewTokenResultBlockedWithCause(base.BlockTypeFlow, BlockMsgQueueing, rule, nil)
-	}
-	if estimatedQueueingDuration > 0 {
-		return base.NewTokenResultShouldWait(time.Duration(estimatedQueueingDuration))
-	} else {
-		return base.NewTokenResultShouldWait(0)
+		estimatedQueueingDuration := expectedTime - curNano
+		if estimatedQueueingDuration > c.maxQueueingTimeNs {
+			return base.NewTokenResultBlockedWithCause(base.BlockTypeFlow, BlockMsgQueueing, rule, nil)
+		}
+		if swapped := atomic.CompareAndSwapInt64(&c.lastPassedTime, loadedLastPassedTime, expectedTime); swapped {
+			return base.NewTokenResultShouldWait(time.Duration(estimatedQueueingDuration))
+		}
 	}
 }
